@@ -43,6 +43,8 @@ int __real_timerfd_settime(int, int, const struct itimerspec *, struct itimerspe
 long __real_syscall(long, ...);
 int __real_pipe(int[2]);
 int __real_close(int);
+ssize_t __real_read(int, void *, size_t);
+ssize_t __real_write(int, const void *, size_t);
 
 void vk_reset(void)
 {
@@ -274,4 +276,18 @@ long __wrap_syscall(long nr, ...)
 		if (s >= 0) { int err = fault(s); if (err) { errno = err; return -1; } }
 	}
 	return __real_syscall(nr, a, b, c, d, e, f);
+}
+
+/* ------------------------------------------------------------------ descriptor I/O (observation / yield points only) */
+ssize_t __wrap_read(int fd, void *buf, size_t n)
+{
+	if (vk_active && vk_hooks.io_pre) vk_hooks.io_pre(0, fd, n);
+	return __real_read(fd, buf, n);
+}
+ssize_t __wrap_write(int fd, const void *buf, size_t n)
+{
+	if (vk_active && vk_hooks.io_pre) vk_hooks.io_pre(1, fd, n);
+	ssize_t r = __real_write(fd, buf, n);
+	if (vk_active && vk_hooks.io_post) { int e = errno; vk_hooks.io_post(1, fd, r); errno = e; }
+	return r;
 }
